@@ -59,6 +59,35 @@ pub struct TrainDisp {
     acc_startup: si::Acceleration,
 }
 
+/// Read-only accessors for the verification observer (feature `verif-hooks`).
+#[cfg(feature = "verif-hooks")]
+impl TrainDisp {
+    pub fn verif_disp_path(&self) -> &[DispNode] {
+        &self.disp_path
+    }
+    pub fn verif_est_times(&self) -> &[EstTime] {
+        &self.est_times
+    }
+    pub fn verif_idx_fixed(&self) -> usize {
+        self.disp_node_idx_fixed.idx()
+    }
+    pub fn verif_idx_free(&self) -> usize {
+        self.disp_node_idx_free.idx()
+    }
+    pub fn verif_idx_front(&self) -> usize {
+        self.disp_node_idx_front.idx()
+    }
+    pub fn verif_idx_back(&self) -> usize {
+        self.disp_node_idx_back.idx()
+    }
+    pub fn verif_time_spacing(&self) -> si::Time {
+        self.time_spacing
+    }
+    pub fn verif_div_nodes(&self) -> &[DivergeNode] {
+        &self.div_nodes
+    }
+}
+
 impl TrainDisp {
     pub fn swap_link_idxs_blocking(&mut self, link_idxs: &mut Vec<LinkIdx>) {
         std::mem::swap(&mut self.link_idxs_blocking, link_idxs);
